@@ -8,12 +8,12 @@ from .core import And, Cell, Col, F, I, Idx, If, Not, Or, Sum, SymBase, T, Unsup
 from . import core
 
 
-def group_reduce(keys, valid, order, aggs):
+def group_reduce(keys, valid, order, aggs, dropna=True):
     """keys: list of key columns (each a list of cells); aggs: list of (name, cells).
     -> (first flags, [cells per agg]) ; groups with a null key are dropped (dropna=True)"""
     n = len(valid)
     keyrows = [[k[i] for k in keys] for i in range(n)]
-    ok = [And(valid[i], *[Not(c.null) for c in keyrows[i]]) for i in range(n)]
+    ok = [And(valid[i], *[Not(c.null) for c in keyrows[i]]) if dropna else valid[i] for i in range(n)]
     member = [[None] * n for _ in range(n)]
     for i in range(n):
         for j in range(n):
@@ -82,8 +82,7 @@ class SymGroupBy:
 
         if kw.get("axis", 0) not in (0, "index") or kw.get("as_index", True) is not True:
             raise Unsupported("groupby axis / as_index")
-        if dropna is False:
-            raise Unsupported("groupby(dropna=False)")
+        self.dropna = dropna is not False
         self.obj, self.sort, self.selection = obj, bool(sort), selection
         self.by, self.level = by, level
         if by is not None and level is not None:
@@ -110,7 +109,7 @@ class SymGroupBy:
                     elif idxname is not None and b == idxname:
                         if not obj.index_.defined:
                             raise Unsupported("groupby on undefined index")
-                        cols.append((b, Col("i", [I(v) for v in obj.index_.vals])))
+                        cols.append((b, obj.index_.column()))
                     else:
                         raise StructuralError(f"groupby key {b!r} not in {obj.labels}")
                 self.keycols = cols
@@ -130,7 +129,7 @@ class SymGroupBy:
                 if isinstance(idx.name, list):
                     cols.append((names[lv], Col("i", [I(v[lv]) for v in idx.vals])))
                 else:
-                    cols.append((names[lv], Col("i", [I(v) for v in idx.vals])))
+                    cols.append((names[lv], idx.column()))
             self.keycols = cols
             self.key_in_frame = False
         if len(self.keycols) != 1 and by is None and not isinstance(idx.name, list):
@@ -173,8 +172,14 @@ class SymGroupBy:
         vcols, as_series = self._value_cols()
         keys = [c.cells() for _, c in self.keycols]
         aggs = [(name, c.cells()) for _, c in vcols] if name != "size" else [("size", self.keycols[0][1].cells())]
-        first, res = group_reduce(keys, obj.valid, None, aggs)
-        if len(self.keycols) == 1:
+        first, res = group_reduce(keys, obj.valid, None, aggs, self.dropna)
+        nan_group = not self.dropna and any(c.nullable for _, c in self.keycols)
+        if nan_group and len(self.keycols) != 1:
+            raise Unsupported("multi-key groupby(dropna=False)")
+        if nan_group:
+            idx = Idx([If(c.null, core.NAN_LABEL, c.num()) for c in self.keycols[0][1].cells()], self.keycols[0][0], True, nan=True)
+            keys = [[Cell(v, F, "i") for v in idx.vals]]
+        elif len(self.keycols) == 1:
             idx = Idx([c.num() for c in self.keycols[0][1].cells()], self.keycols[0][0], True)
         else:
             idx = Idx([tuple(k[i].num() for k in keys) for i in range(len(first))], [k for k, _ in self.keycols], True)
@@ -218,9 +223,62 @@ class SymGroupBy:
 
     last = first
 
-    def agg(self, *a, **kw):
-        raise Unsupported("groupby agg")
+    def var(self, ddof=1, numeric_only=False, **kw):
+        # the textbook sum-of-squares formula, taken from dask's own helpers applied to the whole table at once
+        from dask.dataframe.groupby import _var_agg, _var_chunk
+        from .frame import SymFrame
+
+        vcols, as_series = self._value_cols()
+        if not isinstance(self.obj, SymFrame) or not self.key_in_frame:
+            raise Unsupported("groupby var on a series / by level")
+        keynames = [k for k, _ in self.keycols]
+        df = self.obj[keynames + [k for k, _ in vcols]]
+        chunk = _var_chunk(df, *keynames, observed=False, dropna=self.dropna)
+        out = _var_agg(chunk, levels=0 if len(keynames) == 1 else list(range(len(keynames))), ddof=ddof, sort=self.sort, observed=False, dropna=self.dropna)
+        return out[vcols[0][0]] if as_series else out
+
+    def std(self, ddof=1, numeric_only=False, **kw):
+        return self.var(ddof=ddof).sqrt()
+
+    _AGGS = ("sum", "count", "min", "max", "mean", "size", "median", "var", "std")
+
+    def agg(self, arg=None, *a, **kw):
+        from .frame import SymFrame
+
+        kw = {k: v for k, v in kw.items() if k not in ("split_every", "split_out", "shuffle_method")}  # dask-only knobs of the program text
+        if a or kw or arg is None:
+            raise Unsupported("groupby agg with extra arguments / named aggregation")
+        vcols, as_series = self._value_cols()
+
+        def one(col, func):
+            if not isinstance(func, str) or func not in self._AGGS:
+                raise Unsupported(f"groupby agg function {func!r}")
+            g = self if as_series else self[col]
+            return getattr(g, func)()
+
+        if isinstance(arg, str):
+            if arg not in self._AGGS:
+                raise Unsupported(f"groupby agg function {arg!r}")
+            return getattr(self, arg)()
+        out = {}
+        if isinstance(arg, (list, tuple)):
+            for col, _ in vcols:
+                for f in arg:
+                    out[f if as_series else (col, f)] = one(col, f)
+        elif isinstance(arg, dict):
+            if as_series:
+                raise Unsupported("series groupby agg with a dict")
+            nested = any(isinstance(v, (list, tuple)) for v in arg.values())
+            for col, fs in arg.items():
+                for f in (fs if isinstance(fs, (list, tuple)) else [fs]):
+                    out[(col, f) if nested else col] = one(col, f)
+        else:
+            raise Unsupported("groupby agg spec")
+        return SymFrame(out)
 
     aggregate = agg
-    apply = agg
-    transform = agg
+
+    def apply(self, *a, **kw):
+        raise Unsupported("groupby apply")
+
+    transform = apply
